@@ -198,6 +198,12 @@ func (r *rdbdriver) GetLocationByMap(ipnet *net.IPNet, mapID []byte, context Con
 	if len(foundVal) == 0 {
 		return nil, 0, nil // consistent with the return at the end of cdbdriver.go:/GetLocationByMap
 	}
+	// the closest preceding key must be a range point of the very same map: a map
+	// with no subnets before the requested IP (or no subnets at all) has no match,
+	// and must not inherit the last range point of the preceding map or an unrelated key
+	if len(foundKey) != len(fullKey) || !bytes.Equal(foundKey[:6], fullKey[:6]) {
+		return nil, 0, nil
+	}
 	if len(foundVal) < 4 {
 		err = fmt.Errorf("short value: length %d, value %v, map %v", len(foundVal), foundVal, mapID)
 		return nil, 0, err
